@@ -887,3 +887,23 @@ V("c03d-pure-projection-not-normalised", "C03", {"rule": "C03d", "contains": "fo
   (PURESTEPS1, "            modes=instruction.modes,\n            normalization=normalization,\n        )\n\n        branch = Branch(new_state, sample, frequency=frequency)",
    "            modes=instruction.modes,\n        )\n\n        branch = Branch(new_state, sample, frequency=frequency)"),
   (PUREUTILS, "    normalization: float,\n) -> PureFockState:\n    remaining_state_vector = normalization * _get_remaining_state_vector(", ") -> PureFockState:\n    remaining_state_vector = _get_remaining_state_vector("))
+
+# --- round 3b: renumbering loops, mode masks, python kernel thresholds, worker-count reads
+SAMPLING = "piquasso/_simulators/passive/sampling.py"
+HESS = "piquasso/_math/hafnian/hessenberg.py"
+PLAINH = "piquasso/_math/hafnian/plain_hafnian.py"
+V("c16c-renumbering-unsorted", "C16", {"rule": "C16c", "contains": "map_to_original_modes"},
+  (SAMPLING, "    for postselected in sorted(postselected_modes):\n", "    for postselected in postselected_modes:\n"))
+V("c16d-store-through-mode-mask", "C16", {"rule": "C16d", "contains": "get_projection_operator_indices"},
+  (FOCKSTEPS, "    basis[:, modes] = basis_vector\n", "    is_projected = np.zeros(d, dtype=bool)\n    is_projected[modes,] = True\n    basis[:, is_projected] = basis_vector\n"))
+V("c16d-mask-for-membership-only", "C16", "silent",
+  (FOCKSTEPS, "    basis[:, modes] = basis_vector\n", "    is_projected = np.zeros(d, dtype=bool)\n    is_projected[modes,] = True\n    assert is_projected.sum() == len(modes)\n    basis[:, modes] = basis_vector\n"))
+V("c04d-python-absolute-threshold", "C04", {"rule": "C04d", "contains": "_get_reflection_vector"},
+  (HESS, "        reflect_vector[0] += sigma\n\n    if norm_v_sqr == 0.0:\n", "        reflect_vector[0] += sigma\n\n    if norm_v_sqr < 1e-12:\n"))
+V("c04d-python-threshold-via-constant", "C04", {"rule": "C04d", "contains": "_get_reflection_vector"},
+  (HESS, "        reflect_vector[0] += sigma\n\n    if norm_v_sqr == 0.0:\n", "        reflect_vector[0] += sigma\n\n    if norm_v_sqr < EPSILON:\n"),
+  (HESS, "@nb.njit(cache=True)\ndef _get_reflection_vector(input):", "EPSILON = 1e-12\n\n\n@nb.njit(cache=True)\ndef _get_reflection_vector(input):"))
+V("c04d-python-scale-guard-constant-renamed", "C04", "silent",
+  (PLAINH, "    if scale_factor < 1e-8:\n        return matrix, 1.0\n", "    if scale_factor < 1e-10:\n        return matrix, 1.0\n"))
+V("c11g-partition-by-worker-count", "C11", {"rule": "C11g", "contains": "worker count read"},
+  (PLAINH, "    n = sum(occupation_numbers)\n\n    if n == 0:\n        return 1.0\n", "    n = sum(occupation_numbers)\n    jobs = nb.get_num_threads()\n\n    if n == 0:\n        return 1.0 * (jobs > 0)\n", 1))
